@@ -9,7 +9,7 @@ LEVEL_TEXT = ("For every enumerated program (named catalogue + all specs over 3 
               "chain's, and nothing else is offered.")
 LEVEL_NOTE = "trusted: reference chain eonmc/ref.py:spec_rates; horizon 4/5 events (generated programs 3/4) from every initial status vector; <=3 (4) nodes; float tolerance 1e-9"
 RULE = "one spec = (program, graph, initial status vector, horizon); all draw outcomes enumerated; non-trivial = execution with >=1 event"
-BOUNDS = {"quick": "catalogue of 11 programs x all undirected graphs on <=3 nodes + all digraph shapes on <=3 nodes x all initial status vectors, horizon 4; 133 generated programs x 4 graphs x 27 initial vectors, horizon 3",
+BOUNDS = {"quick": "catalogue of 11 programs x all undirected graphs on <=3 nodes + all digraph shapes on <=3 nodes + 4 graphs with self-loops (2 directed) x all initial status vectors, horizon 4; 133 generated programs x 4 graphs x 27 initial vectors, horizon 3",
           "thorough": "all labelled digraphs on <=3 nodes, C4/S4, horizon 5; 1204 generated programs, horizon 4"}
 ASSUMPTIONS = ["event horizon from every initial status vector instead of unbounded runs", "statuses limited to <=4 symbols"]
 
